@@ -53,6 +53,32 @@ def bundle_obligations(ctx, pid, propdef, tier):
     return obls
 
 
+SIZES = {"KA": 12, "KB": 12, "KC": 8, "KD": 32, "KE": 64, "KF": 20, "KG": 132}
+
+
+def bundle_cap_obligations(ctx, pid, propdef, tier):
+    """the same sequences with CONCRETE capacities: every multiple of 4 up to the size needed, need-1, need, need+8"""
+    raw = '"%s"' % os.path.join(ctx.repo, "src/rtosc.c")
+    obls = []
+    for seq in sequences(tier):
+        if not seq or (tier == "quick" and len(seq) > 2):
+            continue
+        need = 16 + sum(4 + SIZES[k] for k in seq)
+        caps = sorted(set(list(range(0, need, 4)) + [need - 1, need, need + 8]))
+        if tier == "quick":
+            caps = [c for c in caps if c % 8 == 4 or c in (0, need - 1, need)]
+        kinds = ",".join(seq + ("KC",) * (4 - len(seq)))
+        big = "KG" in seq
+        for cap in caps:
+            obls.append(Obl("%s.bundle_cap.%s.cap%03d" % (pid, "_".join(seq), cap), pid, "harness/C08/bundle.c", entry="h_bundle",
+                            defines=dict({"RTOSC_C": raw, "BN_K": str(len(seq)), "BN_KINDS": kinds, propdef: None, "BN_CAP": str(cap)},
+                                         **({"ELMAX": "136"} if big else {})), mode="bounded",
+                            bound="element sequence and capacity fixed, payload/time tag symbolic",
+                            cbmc=["--unwind", "460" if big else "260", "--unwinding-assertions"], timeout=600, mem_gb=8,
+                            case={"elements": list(seq), "capacity": cap, "needed": need}))
+    return obls
+
+
 def obligations(ctx):
     obls = bundle_obligations(ctx, PID, PROPDEF, ctx.tier)
     # known finding (known-findings.txt): an element that is itself a bundle, held in an exact-size object
